@@ -364,9 +364,27 @@ package mocker
 //@   ghost_set stub_of[m] = m.imp
 //@   ensures stub_prepared: m.when == when && m.imp == stub_of[m] && result == nil
 
-//@ trusted func (w *When) Return
-//@   assigns w.matches, w.defaultReturns, anyfield(BaseMatcher, results)
+// adding results to a matcher through the interface (BaseMatcher.AddResult is the implementation under contract)
+//@ extern func (github.com/tencent/goom.Matcher).AddResult
+//@   dispatch
+//@   assigns anyfield(BaseMatcher, results), varval
 //@   may_panic
+
+// When.Return: a pending condition (after When/In) receives the values and is registered after the earlier conditions;
+// without one the values become the default results (first call) or extend the default sequence.  Nothing else changes;
+// if the values are rejected nothing is registered.
+//@ func (w *When) Return
+//@   props C04 C05 C09 C13
+//@   requires receiver: w != nil && 0 <= len(w.matches) && len(w.matches) < 0x10000 && len(value) < 0x10000
+//@   requires type: w.funcTyp != nil && rt_kind(w.funcTyp) == reflect.Func
+//@   assigns w.matches, w.defaultReturns, anyfield(BaseMatcher, results), varval, w.matches[len(w.matches) : cap(w.matches)]
+//@   ensures pending_condition_registered_last: old(w.curMatch) != nil ==> len(w.matches) == old(len(w.matches)) + 1 && w.matches[len(w.matches) - 1] == old(w.curMatch) && w.defaultReturns == old(w.defaultReturns)
+//@   ensures otherwise_conditions_untouched: old(w.curMatch) == nil ==> w.matches == old(w.matches)
+//@   ensures first_default_created: old(w.curMatch) == nil && old(w.defaultReturns) == nil && value != nil ==> w.defaultReturns != nil && typeof(w.defaultReturns) == typeid(*AlwaysMatcher)
+//@   ensures existing_default_extended_not_replaced: old(w.curMatch) == nil && old(w.defaultReturns) != nil ==> w.defaultReturns == old(w.defaultReturns)
+//@   ensures same_builder: result == w && w.curMatch == old(w.curMatch)
+//@   panics_only_if values_rejected: true
+//@   ensures_on_panic nothing_registered: w.matches == old(w.matches) && w.defaultReturns == old(w.defaultReturns)
 //@ trusted func (w *When) When
 //@   assigns w.curMatch
 //@   may_panic
@@ -397,7 +415,7 @@ package mocker
 //@   requires inv: mocker_inv(m.baseMocker)
 //@   requires patch_state: patch_state_ok()
 //@   assigns m.baseMocker.when, m.baseMocker.guard, m.baseMocker.imp, m.baseMocker.funcDef, running[m.baseMocker], stub_of[m.baseMocker], textmem, perm, mapof(patch.patches), anyfield(patch.patch, guard), anyfield(patch.Guard, applied),
-//@     | mutex_held[addr(patch.patchesLock)], rw_wheld[addr(memory.memoryAccessLock)], rw_rheld[addr(memory.memoryAccessLock)], placeholder_target[m.baseMocker.origin], varval, anyfield(When, matches), anyfield(When, defaultReturns), anyfield(BaseMatcher, results)
+//@     | mutex_held[addr(patch.patchesLock)], rw_wheld[addr(memory.memoryAccessLock)], rw_rheld[addr(memory.memoryAccessLock)], placeholder_target[m.baseMocker.origin], varval, anyfield(When, matches), anyfield(When, defaultReturns), anyfield(BaseMatcher, results), m.baseMocker.when.matches[len(m.baseMocker.when.matches) : cap(m.baseMocker.when.matches)]
 //@   ensures stub_supersedes_callback: m.baseMocker.when != nil && running[m.baseMocker] == stub_of[m.baseMocker]
 //@   ensures continues_existing_configuration: old(m.baseMocker.when) != nil ==> m.baseMocker.when == old(m.baseMocker.when)
 //@   ensures[C13] too_few_return_values_rejected_up_front: old(m.baseMocker.when) == nil && m.funcDef != nil ==> len(value) >= rt_numout(rt_of(typeof(m.funcDef)))
@@ -562,7 +580,7 @@ package mocker
 //@   requires target_is_a_function: m.funcDef != nil && rt_kind(rt_of(typeof(m.funcDef))) == reflect.Func && len(values) < 0x10000
 //@   requires patch_state: patch_state_ok()
 //@   assigns m.baseMocker.when, m.baseMocker.guard, m.baseMocker.imp, m.baseMocker.funcDef, running[m.baseMocker], stub_of[m.baseMocker], textmem, perm, mapof(patch.patches), anyfield(patch.patch, guard), anyfield(patch.Guard, applied),
-//@     | mutex_held[addr(patch.patchesLock)], rw_wheld[addr(memory.memoryAccessLock)], rw_rheld[addr(memory.memoryAccessLock)], placeholder_target[m.baseMocker.origin], varval, anyfield(When, matches), anyfield(When, defaultReturns), anyfield(When, curMatch), anyfield(BaseMatcher, results)
+//@     | mutex_held[addr(patch.patchesLock)], rw_wheld[addr(memory.memoryAccessLock)], rw_rheld[addr(memory.memoryAccessLock)], placeholder_target[m.baseMocker.origin], varval, anyfield(When, matches), anyfield(When, defaultReturns), anyfield(When, curMatch), anyfield(BaseMatcher, results), m.baseMocker.when.matches[len(m.baseMocker.when.matches) : cap(m.baseMocker.when.matches)]
 //@   ensures patch_state_kept: patch.table_inv() && !patch.locked()
 //@   panics_only_if configuration_rejected: true
 //@   ensures_on_panic rejected_configuration_leaves_unmocked_targets_alone: patch.panic_frame()
@@ -573,7 +591,7 @@ package mocker
 //@   requires target_is_a_function: m.funcDef != nil && rt_kind(rt_of(typeof(m.funcDef))) == reflect.Func && len(specArg) < 0x10000
 //@   requires patch_state: patch_state_ok()
 //@   assigns m.baseMocker.when, m.baseMocker.guard, m.baseMocker.imp, m.baseMocker.funcDef, running[m.baseMocker], stub_of[m.baseMocker], textmem, perm, mapof(patch.patches), anyfield(patch.patch, guard), anyfield(patch.Guard, applied),
-//@     | mutex_held[addr(patch.patchesLock)], rw_wheld[addr(memory.memoryAccessLock)], rw_rheld[addr(memory.memoryAccessLock)], placeholder_target[m.baseMocker.origin], varval, anyfield(When, matches), anyfield(When, defaultReturns), anyfield(When, curMatch), anyfield(BaseMatcher, results)
+//@     | mutex_held[addr(patch.patchesLock)], rw_wheld[addr(memory.memoryAccessLock)], rw_rheld[addr(memory.memoryAccessLock)], placeholder_target[m.baseMocker.origin], varval, anyfield(When, matches), anyfield(When, defaultReturns), anyfield(When, curMatch), anyfield(BaseMatcher, results), m.baseMocker.when.matches[len(m.baseMocker.when.matches) : cap(m.baseMocker.when.matches)]
 //@   ensures patch_state_kept: patch.table_inv() && !patch.locked()
 //@   panics_only_if configuration_rejected: true
 //@   ensures_on_panic rejected_configuration_leaves_unmocked_targets_alone: patch.panic_frame()
@@ -584,7 +602,7 @@ package mocker
 //@   requires target_is_a_method: m.methodIns != nil && rt_kind(rt_of(typeof(m.methodIns))) == reflect.Func && len(value) < 0x10000
 //@   requires patch_state: patch_state_ok()
 //@   assigns m.baseMocker.when, m.baseMocker.guard, m.baseMocker.imp, m.baseMocker.funcDef, running[m.baseMocker], stub_of[m.baseMocker], textmem, perm, mapof(patch.patches), anyfield(patch.patch, guard), anyfield(patch.Guard, applied),
-//@     | mutex_held[addr(patch.patchesLock)], rw_wheld[addr(memory.memoryAccessLock)], rw_rheld[addr(memory.memoryAccessLock)], placeholder_target[m.baseMocker.origin], varval, anyfield(When, matches), anyfield(When, defaultReturns), anyfield(When, curMatch), anyfield(BaseMatcher, results)
+//@     | mutex_held[addr(patch.patchesLock)], rw_wheld[addr(memory.memoryAccessLock)], rw_rheld[addr(memory.memoryAccessLock)], placeholder_target[m.baseMocker.origin], varval, anyfield(When, matches), anyfield(When, defaultReturns), anyfield(When, curMatch), anyfield(BaseMatcher, results), m.baseMocker.when.matches[len(m.baseMocker.when.matches) : cap(m.baseMocker.when.matches)]
 //@   ensures patch_state_kept: patch.table_inv() && !patch.locked()
 //@   panics_only_if configuration_rejected: true
 //@   ensures_on_panic rejected_configuration_leaves_unmocked_targets_alone: patch.panic_frame()
@@ -595,7 +613,7 @@ package mocker
 //@   requires target_is_a_method: m.methodIns != nil && rt_kind(rt_of(typeof(m.methodIns))) == reflect.Func && len(values) < 0x10000
 //@   requires patch_state: patch_state_ok()
 //@   assigns m.baseMocker.when, m.baseMocker.guard, m.baseMocker.imp, m.baseMocker.funcDef, running[m.baseMocker], stub_of[m.baseMocker], textmem, perm, mapof(patch.patches), anyfield(patch.patch, guard), anyfield(patch.Guard, applied),
-//@     | mutex_held[addr(patch.patchesLock)], rw_wheld[addr(memory.memoryAccessLock)], rw_rheld[addr(memory.memoryAccessLock)], placeholder_target[m.baseMocker.origin], varval, anyfield(When, matches), anyfield(When, defaultReturns), anyfield(When, curMatch), anyfield(BaseMatcher, results)
+//@     | mutex_held[addr(patch.patchesLock)], rw_wheld[addr(memory.memoryAccessLock)], rw_rheld[addr(memory.memoryAccessLock)], placeholder_target[m.baseMocker.origin], varval, anyfield(When, matches), anyfield(When, defaultReturns), anyfield(When, curMatch), anyfield(BaseMatcher, results), m.baseMocker.when.matches[len(m.baseMocker.when.matches) : cap(m.baseMocker.when.matches)]
 //@   ensures patch_state_kept: patch.table_inv() && !patch.locked()
 //@   panics_only_if configuration_rejected: true
 //@   ensures_on_panic rejected_configuration_leaves_unmocked_targets_alone: patch.panic_frame()
@@ -605,7 +623,7 @@ package mocker
 //@   requires receiver: m != nil && m.baseMocker != nil && m.structDef != nil
 //@   requires patch_state: patch_state_ok()
 //@   assigns m.baseMocker.when, m.baseMocker.guard, m.baseMocker.imp, m.baseMocker.funcDef, running[m.baseMocker], stub_of[m.baseMocker], textmem, perm, mapof(patch.patches), anyfield(patch.patch, guard), anyfield(patch.Guard, applied),
-//@     | mutex_held[addr(patch.patchesLock)], rw_wheld[addr(memory.memoryAccessLock)], rw_rheld[addr(memory.memoryAccessLock)], placeholder_target[m.baseMocker.origin], varval, anyfield(When, matches), anyfield(When, defaultReturns), anyfield(When, curMatch), anyfield(BaseMatcher, results)
+//@     | mutex_held[addr(patch.patchesLock)], rw_wheld[addr(memory.memoryAccessLock)], rw_rheld[addr(memory.memoryAccessLock)], placeholder_target[m.baseMocker.origin], varval, anyfield(When, matches), anyfield(When, defaultReturns), anyfield(When, curMatch), anyfield(BaseMatcher, results), m.baseMocker.when.matches[len(m.baseMocker.when.matches) : cap(m.baseMocker.when.matches)]
 //@   ensures patch_state_kept: patch.table_inv() && !patch.locked()
 //@   panics_only_if configuration_rejected: true
 //@   ensures_on_panic rejected_configuration_leaves_unmocked_targets_alone: patch.panic_frame()
